@@ -61,6 +61,11 @@ def gen_request_spec(rng):
             spec["sample_config"] = ("---\ntype: com.google.api.codegen.samplegen.v1p2.SampleConfigProto\nschema_version: 1.2.0\nsamples:\n"
                                      f"- id: fetch_one\n  region_tag: handwritten_fetch_one\n  description: Fetch one\n"
                                      f"  service: {fs['package']}.{s['name']}\n  rpc: {m['name']}\n")
+    if rng.random() < 0.2:
+        # the alternative (Ads) template set
+        o["python-gapic-templates"] = "ads-templates"
+        o["old-naming"] = True
+        o["transport"] = "grpc"
     # many retryable codes in one entry (set-typed in the generator)
     sc = spec.get("service_config")
     if sc and sc["methodConfig"]:
